@@ -119,6 +119,13 @@ def kx(rep, prog):
         return out
     cands = [prog.by_key[k] for k in prog.reach_fns([cl, sv]) if returns_result(prog.by_key[k])]
     auth, results = auth_fixpoint(prog, cands, prims, success=(CT_F, CT_T))
+    for g in cands:
+        for c in prims(g):
+            ok, ws = cm.equal_widths(g, c)
+            known = [w for w in ws if w is not None]
+            rep.ob("KX-WIDTH", "%s|zero comparison width" % g.path, ok and len(known) == 2 and known[0] == 32,
+                   "shared-secret comparison operand widths %s: a slice ct_eq of unequal lengths is constantly false, "
+                   "so the all-zero check could never fire" % (ws,), loc=c.loc())
     for f in (cl, sv):
         r = results[f.key]
         rep.ob("KX-AUTH", f.path, f.key in auth,
